@@ -112,9 +112,21 @@ def make_elem(name):
 
 # ---------------------------------------------------------------------------- implementation side
 class Impl(object):
-    def __init__(self, pipeline):
+    def __init__(self, pipeline, zodb=False):
         from hypatia.text.lexicon import Lexicon
         self.lex = Lexicon(*[make_elem(n) for n in pipeline])
+        self.tm = None
+        if zodb:
+            # the lexicon lives in a database connection: persistence-only slips (a counter invalidated
+            # instead of deactivated, a volatile cache) are invisible without one (seeded change C15_A)
+            import transaction
+            from ZODB import DB
+            from ZODB.DemoStorage import DemoStorage
+            self.tm = transaction.TransactionManager()
+            self.db = DB(DemoStorage())
+            self.conn = self.db.open(self.tm)
+            self.conn.root()["lex"] = self.lex
+            self.tm.commit()
 
     def text(self, c):
         """['s', str] -> str ; ['l', str...] -> list ; ['n'] -> None"""
@@ -147,6 +159,12 @@ class Impl(object):
                 return enc(lex.get_word(c[1]))
             if op == "getwid":
                 return str(lex.get_wid(dec(c[1])))
+            if op == "commit":
+                if self.tm is not None:
+                    self.tm.commit()
+                    if c[1:] == ["evict"]:
+                        self.conn.cacheMinimize()
+                op = "count"
             if op == "count":
                 n = lex.word_count()
                 a, b = len(lex.words()), len(lex.wids())
@@ -170,11 +188,20 @@ def cfgdict(case):
 
 
 def impl_run(hyp, case):
-    im = Impl(cfgdict(case))
-    return [im.run(c) for c in case["cmds"]]
+    zodb = any(c[1] == "zodb" for c in case.get("cfg", []))
+    im = Impl(cfgdict(case), zodb)
+    try:
+        return [im.run(c) for c in case["cmds"]]
+    finally:
+        if im.tm is not None:
+            im.tm.abort()
+            im.conn.close()
+            im.db.close()
 
 
 def model_cmd(c):
+    if c[0] == "commit":
+        return ["count"]        # a commit (and a cache eviction) is invisible: the count is observed again
     if c[0] in ("source", "term", "parse"):
         if c[1] == "n":
             return [c[0], "u"]
@@ -329,7 +356,22 @@ def gen(rng, tier, idx):
             cmds.append([rng.choice(["proc", "procglob"]), e] + args)
     observe(rng, cmds, approx)
     cmds.append(["items"])
-    return make_case(pipeline, cmds)
+    zodb = rng.random() < 0.35
+    if zodb:
+        # commits (half of them followed by a cache eviction) sprinkled over the history; each call then
+        # runs as part of a transaction that may already contain earlier calls
+        out = []
+        for c in cmds:
+            out.append(c)
+            if rng.random() < 0.18:
+                out.append(["commit", "evict"] if rng.random() < 0.5 else ["commit"])
+                if rng.random() < 0.5:
+                    out.append(["count"])
+        cmds = out
+    case = make_case(pipeline, cmds)
+    if zodb:
+        case["cfg"].append(["cfg", "zodb", 1])
+    return case
 
 
 def is_str_token(t):
